@@ -126,6 +126,10 @@ def entry_diffs(rep, prop, m, a_json, b_json, **kw):
     for d in E.compare_entries(a_json, b_json, **kw):
         if d["class"] == "example" and rx:
             rep.counts[prop + " \"example\"-only differences in documents embedding a regex type"] += 1
+            if prop in ("C10", "C20"):
+                # the example generated for a schema that embeds a regex user type depends on what was compiled before it:
+                # a difference between two ORDERS / with and without a NEIGHBOUR is what these two properties forbid
+                keep.append(dict(d, **{"class": "example-regex"}))
         elif d["class"] == "example+usedUserTypes" and rx:
             keep.append(dict(d, **{"class": "usedUserTypes"}))
         else:
